@@ -727,6 +727,49 @@ func RunBounds(c *Ctx, allowed []allowSite) {
 		if ok {
 			used[key] = true
 		}
+		if !ok {
+			// a helper introduced after the baseline counts for the functions that use it
+			for _, nm := range c.attributed(holder) {
+				if w, has := allow[nm+"|"+expr]; has {
+					why, ok = w, true
+					used[nm+"|"+expr] = true
+				}
+			}
+		}
+		if !ok && expr == "" {
+			// the compiler inlined a callee here and reports its bounds check at the call: look at the index expressions of the
+			// in-module functions called on this line
+			info := holder.Pkg.TypesInfo
+			ast.Inspect(holder.Body, func(n ast.Node) bool {
+				call, isCall := n.(*ast.CallExpr)
+				if !isCall || c.P.Fset.Position(call.Pos()).Line != s.line {
+					return true
+				}
+				fn, _ := typeutil.Callee(info, call).(*types.Func)
+				if fn == nil {
+					return true
+				}
+				for _, callee := range c.P.Funcs {
+					if callee.Obj != fn.Origin() || callee.Body == nil {
+						continue
+					}
+					ast.Inspect(callee.Body, func(m ast.Node) bool {
+						switch x := m.(type) {
+						case *ast.IndexExpr, *ast.SliceExpr:
+							ce := canonExpr(callee, x.(ast.Expr), c.P.Fset)
+							for _, nm := range append(c.attributed(callee), root) {
+								if w, has := allow[nm+"|"+ce]; has {
+									why, ok = w, true
+									used[nm+"|"+ce] = true
+								}
+							}
+						}
+						return true
+					})
+				}
+				return true
+			})
+		}
 		c.R.Obl(Obligation{Rule: "E4.R-bounds", Func: root, Construct: "unproven bounds check " + expr, Pos: fmt.Sprintf("%s:%d", relTo(c.P.Repo, s.file), s.line), Discharged: ok, Nontrivial: true, How: []string{why}})
 		if !ok {
 			c.R.Find(Finding{Rule: "E4.R-bounds", Func: root, Construct: "unproven bounds check " + expr, Pos: fmt.Sprintf("%s:%d", relTo(c.P.Repo, s.file), s.line),
